@@ -1,0 +1,51 @@
+// Verification hooks: compiled only with `--cfg vhost_verif`. They expose
+// crate-private pure functions to an external harness and change no behaviour.
+
+//! Accessors for crate-private items, for external verification harnesses.
+
+use super::connection;
+use super::gpu_message::{GpuBackendReq, VhostUserGpuMsgHeader};
+use super::message::{BackendReq, FrontendReq, VhostUserMsgHeader, VhostUserMsgValidator};
+use vm_memory::ByteValued;
+
+fn hdr_from<H: ByteValued + Default>(bytes: &[u8; 12]) -> H {
+    let mut h = H::default();
+    h.as_mut_slice().copy_from_slice(bytes);
+    h
+}
+
+/// Validity of a frontend-request header given as raw bytes.
+pub fn frontend_hdr_is_valid(bytes: &[u8; 12]) -> bool {
+    hdr_from::<VhostUserMsgHeader<FrontendReq>>(bytes).is_valid()
+}
+
+/// Validity of a backend-request header given as raw bytes.
+pub fn backend_hdr_is_valid(bytes: &[u8; 12]) -> bool {
+    hdr_from::<VhostUserMsgHeader<BackendReq>>(bytes).is_valid()
+}
+
+/// Validity of a GPU header given as raw bytes.
+pub fn gpu_hdr_is_valid(bytes: &[u8; 12]) -> bool {
+    hdr_from::<VhostUserGpuMsgHeader<GpuBackendReq>>(bytes).is_valid()
+}
+
+/// Bytes of `VhostUserMsgHeader::new(code, flags, size)` for a frontend request code.
+pub fn frontend_hdr_new(code: u32, flags: u32, size: u32) -> Option<[u8; 12]> {
+    let code = FrontendReq::try_from(code).ok()?;
+    let h = VhostUserMsgHeader::new(code, flags, size);
+    let mut out = [0u8; 12];
+    out.copy_from_slice(h.as_slice());
+    Some(out)
+}
+
+/// `is_reply_for` on two frontend-channel headers given as raw bytes.
+pub fn frontend_hdr_is_reply_for(reply: &[u8; 12], req: &[u8; 12]) -> bool {
+    let r = hdr_from::<VhostUserMsgHeader<FrontendReq>>(reply);
+    let q = hdr_from::<VhostUserMsgHeader<FrontendReq>>(req);
+    r.is_reply_for(&q)
+}
+
+/// The iovec offset computation used by the send/receive loops.
+pub fn sub_iovs_offset(iov_lens: &[usize], skip_size: usize) -> (usize, usize) {
+    connection::verif_get_sub_iovs_offset(iov_lens, skip_size)
+}
